@@ -227,10 +227,15 @@ spif_ustr_init_from_fp(spif_ustr_t self, FILE *fp)
     self->len = 0;
     self->s = (spif_charptr_t) MALLOC(self->size);
 
-    for (p = self->s; fgets((char *)p, buff_inc, fp); p += buff_inc) {
+    for (p = self->s; fgets((char *)p, buff_inc, fp); ) {
         if (!(end = (spif_charptr_t)strchr((const char *)p, '\n'))) {
+            /* fgets() stored fewer than buff_inc characters.  Continue at its
+               terminator, in the (possibly moved) enlarged buffer. */
+            size_t used = (size_t) (p - self->s) + strlen((const char *)p);
+
             self->size += buff_inc;
             self->s = (spif_charptr_t) REALLOC(self->s, self->size);
+            p = self->s + used;
         } else {
             *end = 0;
             break;
@@ -258,10 +263,14 @@ spif_ustr_init_from_fd(spif_ustr_t self, int fd)
     self->len = 0;
     self->s = (spif_charptr_t) MALLOC(self->size);
 
-    for (p = self->s; ((n = read(fd, p, buff_inc)) > 0) || (errno == EINTR);) {
-        self->size += n;
-        self->s = (spif_charptr_t) REALLOC(self->s, self->size);
-        p += n;
+    for (p = self->s; ((n = read(fd, p, buff_inc)) > 0) || ((n < 0) && (errno == EINTR));) {
+        if (n > 0) {
+            /* Keep buff_inc bytes free past the data and re-derive the
+               cursor; REALLOC() may have moved the buffer. */
+            self->size += n;
+            self->s = (spif_charptr_t) REALLOC(self->s, self->size);
+            p = self->s + (self->size - buff_inc);
+        }
     }
     self->len = self->size - buff_inc;
     self->size = self->len + 1;
